@@ -194,6 +194,8 @@ def main():
         kw['only'] = [n for n in c['base'] + c['own'] if n in all_vc]
         kw['specs'] = [m for m in c['specs'] if os.path.exists(os.path.join(spec_dir, m + '.rs'))]
         engine.ACTIVE_CFGS = engine.CFGS + c.get('cfgs_extra', [])
+        if c.get('witness'):
+            os.environ['VERIF_WITNESS_FLAVOUR'] = c['witness']   # replay/run_witness.py: flavour of the witness binary
     annotate.DEGRADE = {}
     ANNOTATE_KW.clear()
     ANNOTATE_KW.update(kw)
@@ -250,7 +252,7 @@ def run_extra_configs(prop, tier, configs, contracts_dir, evidence_path, rc):
                         shutil.copy(m.group(1), dst)
                         line = line.replace(m.group(1), dst)
                     print(line)
-                elif line.startswith(('UNDECIDED', 'KNOWN-FINDING')):
+                elif line.startswith(('UNDECIDED', 'KNOWN-FINDING', 'OK ')):
                     print(line + ' [configuration %s]' % name)
             sys.stderr.write(r.stderr[-4000:])
             sub = {}
@@ -285,7 +287,19 @@ def modules_for(prop, index, spec_dir):
     units = [u for u in index['units'] if prop in u['props']]
     bottoms = [b for b in index['bottoms'] if prop in b['props']]
     files = sorted(set(u['file'] for u in units) | set(b['file'] for b in bottoms))
-    return [engine.module_of(f) for f in files] + [m for m in spec_modules_for(prop, spec_dir)
+    mods = [engine.module_of(f) for f in files]
+    # units inside an inline `mod x { .. }` of a file live in the module <file module>::x
+    for u in units:
+        segs = [s_.strip() for s_ in u['path'].split(' :: ')]
+        m = engine.module_of(u['file'])
+        for s_ in segs:
+            if re.match(r'mod \w+$', s_):
+                m = m + '::' + s_.split()[1]
+                if m not in mods:
+                    mods.append(m)
+            else:
+                break
+    return mods + [m for m in spec_modules_for(prop, spec_dir)
                                                    if m in index.get('spec_modules', [])]
 
 
@@ -669,6 +683,12 @@ def selftest_seeded(prop):
                         'result': {0: 'MISSED', 1: 'reported', 2: 'undecided'}.get(c.returncode, 'error')})
         finally:
             shutil.rmtree(tmp, ignore_errors=True)
+            # the witness build made for this scratch tree (replay/run_witness.py names it after the tree's path)
+            import hashlib
+            tag = hashlib.sha1(os.path.realpath(tmp).encode()).hexdigest()[:10]
+            shutil.rmtree(os.path.join(VERIF, 'cache', 'replay-target-' + tag), ignore_errors=True)
+            shutil.rmtree(os.path.join(VERIF, 'cache', 'replay-target-' + tag + '-nightly'), ignore_errors=True)
+            shutil.rmtree(os.path.join(os.environ.get('VERIF_SCRATCH', '/var/tmp'), 'replay_' + tag), ignore_errors=True)
     return res
 
 
